@@ -323,6 +323,50 @@ def validity(run, im, rng, ncases):
                     run.violation("the distribution does not integrate to one over the circle", dict(info, integral=total), sig=sig)
 
 
+def array_entry(run, im, rng, ncases):
+    """The array-level entry points: `estimate_directional_spectrum_from_moments(e, a1, b1, a2, b2, direction)` on
+    (time, frequency) batches - also with nf = nd - and moments stored in single precision."""
+    for case in range(ncases):
+        with common.guard(run, f"array entry case {case}"), warnings.catch_warnings():
+            warnings.simplefilter("ignore")
+            n = rng.choice([8, 12, 24, 36])
+            nt = rng.choice([1, 2, 3])
+            nf = n if case % 3 == 0 else rng.choice([1, 2, 5, 7])       # nf = nd: broadcasting slips stay silent
+            deg = np.linspace(0, 360, n, endpoint=False)
+            ms = np.array([[quadruple(rng)[0] for _ in range(nf)] for _ in range(nt)], dtype=float)      # (nt, nf, 4)
+            e = np.array([[rng.uniform(0.1, 3.0) for _ in range(nf)] for _ in range(nt)])
+            cols = [ms[..., i].copy() for i in range(4)]
+            single = case % 4 == 1
+            if single:
+                cols = [c.astype(np.float32) for c in cols]
+                run.count("moments_in_single_precision")
+            for variant in ("mem", "mem2/newton", "mem2/approximate"):
+                run.case("array_entry", key=(case, variant))
+                kw = dict(method="mem") if variant == "mem" else dict(method="mem2", solution_method=variant.split("/")[1])
+                info = dict(variant=variant, shape=[nt, nf], N=n, single_precision=single)
+                try:
+                    E2 = np.asarray(im.estimate.estimate_directional_spectrum_from_moments(e, *cols, deg, **kw), dtype=float)
+                except Exception as ex:
+                    run.violation("the estimator raised for finite moments with a1^2+b1^2 < 1", dict(info, error=repr(ex)[:300]))
+                    continue
+                if E2.shape != (nt, nf, n):
+                    run.violation("the 2D spectrum does not have shape (points, frequencies, directions)", dict(info, shape=list(E2.shape)))
+                    continue
+                if np.any(np.isnan(E2)) or np.any(E2 < 0):
+                    run.violation("the reconstructed spectrum has negative or NaN values", info)
+                    continue
+                back = np.sum(E2, axis=-1) * 360.0 / n
+                if not np.allclose(back, e, rtol=1e-9):
+                    run.violation("integrating the reconstructed 2D spectrum over direction does not return e(f)",
+                                  dict(info, got=back.reshape(-1)[:6].tolist(), want=e.reshape(-1)[:6].tolist()))
+                if not single:
+                    i, k = rng.randrange(nt), rng.randrange(nf)
+                    alone = np.asarray(im.estimate.estimate_directional_spectrum_from_moments(
+                        e[i:i + 1, k:k + 1], *[c[i:i + 1, k:k + 1] for c in cols], deg, **kw), dtype=float)[0, 0]
+                    if not close(E2[i, k], alone, 1e-6 if variant == "mem2/newton" else 1e-9):
+                        run.violation("a spectrum of a batch does not get the result it gets alone", dict(info, point=[i, k]))
+
+
 def batches(run, im, rng, ncases):
     for case in range(ncases):
         with common.guard(run, f"batch case {case}"), warnings.catch_warnings():
@@ -613,7 +657,7 @@ def fidelity_grids(run, im, rng, ncases):
     for case in range(ncases):
         with common.guard(run, f"fidelity-grid case {case}"), warnings.catch_warnings():
             warnings.simplefilter("ignore")
-            kind = ["rolled", "offset", "nonuniform", "batch"][case % 4]
+            kind = ["rolled", "offset", "nonuniform", "batch", "two_peaked", "config_sequence"][case % 6]
             n = rng.choice([24, 36, 72])
             binw = 360.0 / n
             std = np.linspace(0, 360, n, endpoint=False)
@@ -630,6 +674,10 @@ def fidelity_grids(run, im, rng, ncases):
                 deg = np.sort(deg)
                 n = len(deg)
             else:
+                if kind == "two_peaked":
+                    n = 144
+                    binw = 360.0 / n
+                    std = np.linspace(0, 360, n, endpoint=False)
                 deg = std
             w = widths_of(deg)
             run.count("grid_" + kind)
@@ -641,6 +689,22 @@ def fidelity_grids(run, im, rng, ncases):
                     m, _ = resolved(rng, n)
                     ms.append(m)
                 ms.append(mirror_moments(ms[0]))
+            elif kind == "two_peaked":
+                # two narrow peaks (6-10 degrees wide, 40-80 degrees apart): resolved by the grid, and the Newton iteration
+                # needs more than a handful of steps for them
+                ms = []
+                for _ in range(5):           # (five seas, solved as five frequencies of one point)
+                    mu0 = rng.uniform(-math.pi, math.pi)
+                    sep = math.radians(rng.uniform(40.0, 80.0))
+                    wl = rng.uniform(0.35, 0.65)
+                    m = [0.0, 0.0, 0.0, 0.0]
+                    for wgt, mu in ((wl, mu0), (1 - wl, mu0 + sep)):
+                        kap = 1.0 / math.radians(rng.uniform(6.0, 10.0)) ** 2
+                        r1, r2 = bessel_ratio(1, kap), bessel_ratio(2, kap)
+                        m[0] += wgt * r1 * math.cos(mu); m[1] += wgt * r1 * math.sin(mu)
+                        m[2] += wgt * r2 * math.cos(2 * mu); m[3] += wgt * r2 * math.sin(2 * mu)
+                    ms.append(m)
+                    run.count("two_peaked_seas")
             else:
                 while True:
                     m, _ = vm_mixture(rng, min_sigma_deg=max(1.5 * coarse, 4.0), max_sigma_deg=90.0)
@@ -653,6 +717,20 @@ def fidelity_grids(run, im, rng, ncases):
                 cols = [c.reshape(len(ms), 1) for c in cols]
                 run.count("batch_points_x_frequency")
             info = dict(grid=kind, directions=deg.tolist(), moments=[list(map(float, mm)) for mm in ms])
+            if kind == "config_sequence":
+                # a conversion with relaxed numerical settings (the documented solver_config) in between must not change
+                # what the default conversion returns afterwards
+                run.case("config_sequence", key=(case,))
+                before = np.asarray(im.estimate.estimate_directional_distribution(*cols, deg, method="mem2", solution_method="newton"), dtype=float)
+                try:
+                    im.estimate.estimate_directional_distribution(*cols, deg, method="mem2", solution_method="newton",
+                                                                  solver_config={"atol": 0.2, "max_iter": 3})
+                except Exception as ex:
+                    run.count("solver_config_call_raised")
+                after = np.asarray(im.estimate.estimate_directional_distribution(*cols, deg, method="mem2", solution_method="newton"), dtype=float)
+                if not np.array_equal(before, after, equal_nan=True):
+                    run.violation("after a conversion with a relaxed solver_config the default conversion no longer reproduces the moments as before "
+                                  "(settings leak between calls)", dict(info, max_abs_change=float(np.nanmax(np.abs(after - before)))))
             out = {}
             for variant in ("mem", "mem2/newton", "mem2/scipy"):
                 if variant == "mem" and kind == "nonuniform":
@@ -758,6 +836,7 @@ def main(prop, tier, seed):
                 validity(run, im, run.rng, 1500 if thorough else 150)
             with common.guard(run, "batch phase"):
                 batches(run, im, run.rng, 120 if thorough else 16)
+            array_entry(run, im, run.rng, 90 if thorough else 12)
             with common.guard(run, "grid sweep"):
                 grid_sweep(run, im, run.rng)
             rule = RULE_C05
